@@ -17,6 +17,7 @@ package main
 import (
 	"context"
 	"crypto/sha256"
+	"encoding/json"
 	"fmt"
 	"os"
 	"reflect"
@@ -214,6 +215,19 @@ func main() {
 	}
 
 	seed := lib.Seed()
+	if os.Getenv("VERIF_MODE") == "replay" { // bin/replay: re-run the recorded seed and tier (the run is deterministic)
+		if b, err := os.ReadFile(os.Getenv("VERIF_REPLAY")); err == nil {
+			var rp struct {
+				Seed int64  `json:"seed"`
+				Tier string `json:"tier"`
+			}
+			if json.Unmarshal(b, &rp) == nil && rp.Seed != 0 {
+				seed = rp.Seed
+				os.Setenv("VERIF_SEED", fmt.Sprint(rp.Seed))
+				os.Setenv("VERIF_TIER", rp.Tier)
+			}
+		}
+	}
 	r := lib.NewRand(seed)
 	thorough := lib.Tier() == "thorough" || os.Getenv("VERIF_MODE") == "search"
 	rep := lib.NewReport("C16")
@@ -221,7 +235,22 @@ func main() {
 
 	c := lib.NewChain(seed, 3, nil)
 	h := &harness{c: c, rep: rep, r: r, urlIdx: map[string]bool{}}
-	sc := setupScenario(c, r)
+	// every keeper that exposes its authority must hold the governance address (checked first: the
+	// scenario below is set up with the governance authority and cannot work otherwise)
+	h.checkKeeperAuthorities()
+	var sc *scenario
+	func() {
+		defer func() {
+			if e := recover(); e != nil {
+				rep.Fail(lib.Failure{Kind: "harness", What: fmt.Sprintf("scenario set-up with the governance authority failed: %v", e), Sig: "C16:harness:setup"})
+			}
+		}()
+		sc = setupScenario(c, r)
+	}()
+	if sc == nil {
+		rep.Write()
+		return
+	}
 	for n := range c.App.GetKVStoreKey() {
 		h.kvNames = append(h.kvNames, n)
 	}
@@ -237,9 +266,6 @@ func main() {
 	must(err)
 	rep.Count(fmt.Sprintf("routable-msgs=%d", routable))
 	rep.Count(fmt.Sprintf("authority-msgs=%d", len(rows)))
-
-	// every keeper that exposes its authority must hold the governance address
-	h.checkKeeperAuthorities()
 
 	vs := variants(c, r)
 	chains := lib.ChainModules
